@@ -78,9 +78,24 @@ Output(plan, retOf(_)) ==
        /\ ObsOk(r.st)
        /\ jit' = [jit EXCEPT ![Ev.g] = r.st]
 
-TrNextU64 == IsEvent("next_u64") /\ Ev.g \in DOMAIN jit /\ Output(JA!PlanU64, FromBytesLE)
-TrNextU32 == IsEvent("next_u32") /\ Ev.g \in DOMAIN jit /\ Output(JA!PlanU32(jit[Ev.g].half), FromBytesLE)
-TrFill    == IsEvent("fill_bytes") /\ Ev.g \in DOMAIN jit
+(* A timer that FAILS while a collection is in progress (the harness arms its scripted timer: one read panics      *)
+(* instead of returning) unwinds the output call.  A call that read the timer had started a fresh collection, and   *)
+(* an output call that starts a fresh collection discards a pending half (C16): after the unwinding no half is     *)
+(* owed, so the next next_u32 collects afresh.  What the interrupted collection leaves in the pool and the memory  *)
+(* walk is specified by no property: it is adopted from the observation.                                            *)
+Faulted == Has(Ev, "panic") /\ Ev.panic = "scripted timer fault"
+TrArmFault == IsEvent("arm_fault") /\ NoPanic /\ Ev.g \in DOMAIN jit /\ ObsOk(jit[Ev.g]) /\ UNCHANGED jit
+TrFault ==
+  /\ (IsEvent("next_u64") \/ IsEvent("next_u32") \/ IsEvent("fill_bytes"))
+  /\ Ev.g \in DOMAIN jit /\ Faulted /\ Has(Ev, "obs")
+  /\ LET st == [jit[Ev.g] EXCEPT !.pool = Ev.obs.pool, !.mpi = Ev.obs.mpi, !.half = FALSE] IN
+       /\ Expect("rounds", st.rounds, Ev.obs.rounds)
+       /\ Expect("half owed after an output call was unwound by its timer", FALSE, Ev.obs.half)
+       /\ jit' = [jit EXCEPT ![Ev.g] = st]
+
+TrNextU64 == IsEvent("next_u64") /\ Ev.g \in DOMAIN jit /\ ~Faulted /\ Output(JA!PlanU64, FromBytesLE)
+TrNextU32 == IsEvent("next_u32") /\ Ev.g \in DOMAIN jit /\ ~Faulted /\ Output(JA!PlanU32(jit[Ev.g].half), FromBytesLE)
+TrFill    == IsEvent("fill_bytes") /\ Ev.g \in DOMAIN jit /\ ~Faulted
              /\ \E plan \in JA!PlanFillSet(jit[Ev.g].half, Ev.n) : Output(plan, LAMBDA b : b)
 
 TrTimerStats ==
@@ -168,7 +183,7 @@ TrByValueCopy == /\ IsEvent("by_value_copy") /\ NoPanic
 
 Init == l = 1 /\ jit = <<>>
 Next == \/ TrReset \/ TrTimer \/ TrNew \/ TrSetRounds \/ TrNextU64 \/ TrNextU32 \/ TrFill \/ TrTimerStats
-        \/ TrTestTimer \/ TrClone \/ TrCloneFrom \/ TrSetPool \/ TrStir \/ TrSeek \/ TrDebug \/ TrDrop \/ TrStdNew \/ TrByValueCopy
+        \/ TrTestTimer \/ TrClone \/ TrCloneFrom \/ TrSetPool \/ TrStir \/ TrSeek \/ TrDebug \/ TrDrop \/ TrStdNew \/ TrByValueCopy \/ TrArmFault \/ TrFault
 Spec == Init /\ [][Next]_vars
 Accepted ==
   IF TLCGet("stats").diameter - 1 = Len(Rec) THEN TRUE
